@@ -817,7 +817,7 @@ theorem sleSetupC_ok (c : Cls K) (cache : SCache) (hc : SCacheOK c cache) (r : R
   simp only
   split
   · split
-    · exact hc
+    · split <;> exact hc
     · split
       · intro nz hnz; exact hc nz hnz
       · have hfresh : ∀ k : SCache, k.nz = some (nzKeys c (tab c.n fun i => get r.l i + get r.s i)) →
